@@ -282,6 +282,45 @@ def run(tier, seed):
         rep.add('CONFIG.forwarded', f, where(cp), 'option field `%s` is consumed by the driver%s' %
                 (f, (' (exempt: %s)' % exempt[f]) if f in exempt else ''), okf)
     rep.floor('CONFIG.forwarded', len(setf), 12)
+    # the driver uses the parsed configuration as it is
+    rep.rule('CONFIG.verbatim', 'the driver never rewrites a setting it was given: `_config_` is assigned as a whole from a '
+             'configuration argument and no member function of the driver assigns, increments or otherwise mutates one of its fields (a re-mapped seed, '
+             'count or mode makes the run differ from what the library API yields for the command line\'s own settings)')
+    nwhole = 0
+    for k_, f_ in sorted(prog.functions.items()):
+        if f_.get('cls') != 'bxdecay0::driver' or not f_.get('body'):
+            continue
+        for n_ in astu.walk(f_['body']):
+            tgt = None
+            if n_['k'] == 'Bin' and n_['op'].endswith('=') and n_['op'] not in ('==', '!=', '<=', '>='):
+                tgt = n_['a']
+            elif n_['k'] == 'OpCall' and n_['op'].endswith('=') and n_['op'] not in ('==', '!=', '<=', '>=') and n_['args']:
+                tgt = n_['args'][0]
+            elif n_['k'] == 'Un' and n_['op'] in ('++', '--'):
+                tgt = n_['e']
+            elif n_['k'] == 'MCall' and n_.get('callee', {}).get('qn', '').split('::')[-1] in (
+                    'clear', 'assign', 'append', 'push_back', 'erase', 'insert', 'swap', 'resize', 'replace', 'reset', 'pop_back'):
+                tgt = n_.get('obj')
+            if tgt is None:
+                continue
+            t_ = astu.src(astu.strip_casts(tgt))
+            if t_ == '_config_':
+                rhs = n_['b'] if n_['k'] == 'Bin' else (n_['args'][1] if n_['k'] == 'OpCall' and len(n_['args']) > 1 else None)
+                r_ = astu.strip_casts(rhs) if rhs else None
+                okw = r_ is not None and r_.get('k') == 'Ref' and r_.get('dk') == 'param' and n_.get('op') == '='
+                nwhole += 1
+                if okw:
+                    rep.add('CONFIG.verbatim', '%s:_config_' % f_['name'], where(f_, n_.get('l')),
+                            '%s: `_config_` is set as a whole from the argument `%s`' % (f_['qn'], r_['name']), True)
+                else:
+                    rep.cannot_decide('CONFIG.verbatim', where(f_, n_.get('l')), '`_config_` is assigned from `%s`, not from a parameter as a whole'
+                                      % astu.src(rhs)[:60])
+            elif t_.startswith('_config_.') or t_.startswith('this->_config_.'):
+                rep.add('CONFIG.verbatim', '%s:%s' % (f_['name'], t_), where(f_, n_.get('l')),
+                        '%s rewrites the setting `%s`' % (f_['qn'], t_), False,
+                        ['`%s` is changed after the command line was parsed: the run no longer uses the value the user gave '
+                         '(and that the API would be given)' % t_])
+    rep.floor('CONFIG.verbatim', nwhole, 1)
     # one option, one value: an option arm of the parser stores its own value and nothing derived from it elsewhere
     rep.rule('CONFIG.one-option-one-field', 'each `arg == "--option"` arm of cl_parser::parse assigns at most one configuration field from '
              'its value (plus literal flags such as use_mdl = true): no option silently changes a setting that has no option of its own')
